@@ -82,6 +82,7 @@ pub fn dispatch(op: &str, _ty: &str, args: &[Arg]) -> Option<String> {
             ("rjust", [w, f]) => res_sarr(&a.rjust(&ua(w)?, oca(f)?)),
             ("split", [s, l]) => res_list(&ArrayStringManipulate::split(&a, osa(s)?, oua(l)?)),
             ("rsplit", [s, l]) => res_list(&a.rsplit(osa(s)?, oua(l)?)),
+            ("compare", [b, Arg::S(name)]) => res_bool(&a.compare(&sa(b)?, String::from_utf8(name.clone()).ok()?)),
             ("translate", [Arg::L(tbl)]) => res_sarr(&a.translate(tbl.chunks(2).filter(|p| p.len() == 2)
                 .map(|p| (char::from(p[0] as u8), char::from(p[1] as u8))).collect())),
             ("zfill", [Arg::Z(w)]) => res_sarr(&a.zfill(*w as usize)),
